@@ -74,7 +74,10 @@ def run(ctx):
                 base = {(k if "|" in k else k + "|r1"): v for k, v in base.items()}
             nobs = rng.randint(1, 4)
             datak = rng.choice(["real", "real", "count", "count-mean"])
-            cvdim = rng.choice([0, 0, 1, 2, 3])
+            corpus = i == 0       # corpus: the listed finding (a sample equal to the central value) is exercised on every run
+            if corpus:
+                base, nobs, datak = {"A|r1": list(range(1, 9))}, 1, "count-mean"
+            cvdim = rng.choice([0, 0, 1, 2, 3]) if not corpus else 0
             cv = None
             if cvdim:
                 m = np.array([[float(rng.randint(1, 4)) if a == b else 0.25 for b in range(cvdim)] for a in range(cvdim)])
@@ -83,7 +86,7 @@ def run(ctx):
                     cv = [cv]
             obsl = []
             for k in range(nobs):
-                mode = "same" if k == 0 else rng.choice(["same", "subset_prefix", "subset_stride", "subset_random", "superset", "missing_rep", "overlap"])
+                mode = "same" if (k == 0 or corpus) else rng.choice(["same", "subset_prefix", "subset_stride", "subset_random", "superset", "missing_rep", "overlap"])
                 lay = obsutil.derive_layout(rng, base, mode)
                 names = sorted(lay)
                 ens = sorted(set(n.split("|")[0] for n in names))
@@ -93,7 +96,9 @@ def run(ctx):
                     smp = []
                     for n in rn:
                         L = len(lay[n])
-                        if len(rn) > 1 and n == rn[-1] and rng.random() < 0.3:
+                        if corpus:
+                            smp.append(np.array([0.0, 1.0, 2.0, 1.0, 1.0, 3.0, 0.0, 0.0]))
+                        elif len(rn) > 1 and n == rn[-1] and rng.random() < 0.3:
                             # an observable frozen on one replica (e.g. a topological charge on a short stream): constant samples
                             smp.append(np.array([float(rng.randint(1, 3))] * L))
                             ctx.count("frozen replica")
